@@ -39,9 +39,17 @@ CHECKS.update({
          'operand parser); z3 decides, per line, selected-by-reference-chain-semantics <=> assembled, for all operand values', '6 C08',
          'sequences enumerated (hand-written per historical defect + seeded random, depth <= 3); operands -1000..1000; excluded lines well-formed'),
 })
+CHECKS.update({
+ 'C10': ('PIPE, relational: program with a macro invocation vs the hand-expanded program, both through the real assembler in one '
+         'symbolic run; z3 decides image(macro) == image(expansion) incl. the label after it, for all operand/opcode values and origins', '6 C10',
+         'macro catalogue enumerated (1..3 steps, 2 variants, all placeholder kinds, odd-sized steps, relative operands); expansions written by hand'),
+ 'C13': ('PIPE: deliberately ambiguous ISA definitions where every alternative carries distinct symbolic opcode/operand codes; z3 '
+         'decides image == encoding of the alternative the documented priority selects, for all code and operand values', '6 C13',
+         'ambiguous structures and statements from a hand-written catalogue; which alternatives accept a text is known by construction'),
+})
 NA = {
 }
-PENDING = ['C06','C10','C13','C14','C16','C17','C19','C20']
+PENDING = ['C06','C14','C16','C17','C19','C20']
 NA_FIXED = {
  'C09': 'quantifier is over names/line text handled by re.findall + str.replace on concrete strings; Python re cannot run on symbolic strings and an SMT-string re-model would not be the real code (DESIGN 7)',
  'C15': 'variation enters through interpreter hash randomisation and the OS environment - process parameters, not inputs of any function the symbolic executor can run (DESIGN 7)',
